@@ -4,6 +4,7 @@ import (
 	"fmt"
 	"sort"
 	"strings"
+	"time"
 
 	"go.sia.tech/core/consensus"
 	"go.sia.tech/core/types"
@@ -17,7 +18,28 @@ func (w *World) crashOffer(sc *scratch, name string, v1 []types.Transaction, v2 
 	// only decodable inputs are in the quantifier: go through the wire first
 	var b types.Block
 	if p := guard(func() { b = w.assembleOpt(sc.s, sc.nextTimestamp(), w.miners[0].addr, v1, v2, len(v2) > 0) }); p != "" {
-		return // the harness itself cannot total the fees: no miner could seal it
+		// the fees do not total: a hostile peer seals the block all the same,
+		// with whatever payout it likes
+		b = w.assembleHostile(sc.s, sc.nextTimestamp(), w.miners[0].addr, v1, v2, len(v2) > 0)
+		w.stats.Inc("probe.crash-untotalled-fees")
+	}
+	// the transaction-level entry points (what a transaction pool calls), each
+	// transaction alone against the fork's state
+	for i := range v1 {
+		var ts consensus.V1TransactionSupplement
+		if bs := sc.supplement(types.Block{Transactions: v1[i : i+1]}); len(bs.Transactions) == 1 {
+			ts = bs.Transactions[0]
+		}
+		if p := guard(func() { consensus.ValidateTransaction(consensus.NewMidState(sc.s), v1[i], ts) }); p != "" {
+			w.violate("C10", "validate-txn-panic", fmt.Sprintf("row %s: ValidateTransaction: %s", name, p))
+			return
+		}
+	}
+	for i := range v2 {
+		if p := guard(func() { consensus.ValidateV2Transaction(consensus.NewMidState(sc.s), v2[i]) }); p != "" {
+			w.violate("C10", "validate-txn-panic", fmt.Sprintf("row %s: ValidateV2Transaction: %s", name, p))
+			return
+		}
 	}
 	var enc []byte
 	if p := guard(func() { enc = encodeBlock(b) }); p != "" {
@@ -245,6 +267,32 @@ func init() {
 		}},
 	)
 	_ = consensus.State{}
+}
+
+// assembleHostile seals a block over any transactions: the payout is the
+// reward plus the fees as far as they can be totalled.
+func (w *World) assembleHostile(s consensus.State, ts time.Time, addr types.Address, v1 []types.Transaction, v2 []types.V2Transaction, forceV2 bool) types.Block {
+	reward := s.BlockReward()
+	add := func(c types.Currency) {
+		if sum, over := reward.AddWithOverflow(c); !over {
+			reward = sum
+		}
+	}
+	for i := range v1 {
+		for _, f := range v1[i].MinerFees {
+			add(f)
+		}
+	}
+	for i := range v2 {
+		add(v2[i].MinerFee)
+	}
+	b := types.Block{ParentID: s.Index.ID, Timestamp: ts, Transactions: v1, MinerPayouts: []types.SiacoinOutput{{Value: reward, Address: addr}}}
+	if child := s.Index.Height + 1; forceV2 || child >= w.net.HardforkV2.AllowHeight {
+		b.V2 = &types.V2BlockData{Height: child, Transactions: v2}
+		b.V2.Commitment = s.Commitment(addr, b.Transactions, b.V2Transactions())
+	}
+	sealBlock(s, &b)
+	return b
 }
 
 // sortedKeys returns the keys of m in sorted order (map iteration order must
